@@ -72,6 +72,7 @@ def load_kani_units():
                 "bound": kv.get("bound", ""),
                 "stubs": [f.strip() for f in kv.get("stubs", "").split(";") if f.strip()],
                 "havoc": kv.get("havoc", "0") == "1",
+                "heavy": kv.get("heavy", "0") == "1",
                 "replay": kv.get("replay", "1") == "1",
                 "note": kv.get("note", ""),
                 "contract_of": kv.get("contract_of", ""),
